@@ -68,10 +68,13 @@ func (fs *FileStorage) send(m storage.Message) (storage.Message, error) {
 		data []byte
 		err  error
 	)
+	simYield(fs, "send.beforeLock")
 	if err = fs.lockFile.Lock(); err != nil {
 		return m, fmt.Errorf("failed to lock a file:  %w", err)
 	}
+	defer simYield(fs, "send.afterUnlock")
 	defer fs.lockFile.Unlock()
+	simYield(fs, "send.afterLock")
 
 	m.ID = uuid.New().String()
 
@@ -79,6 +82,7 @@ func (fs *FileStorage) send(m storage.Message) (storage.Message, error) {
 		return m, fmt.Errorf("failed to seek a offset to the start of a data file:  %w", err)
 	}
 	m.Offset = countLines(fs.dataFile)
+	simYield(fs, "send.afterCount")
 
 	if data, err = json.Marshal(m); err != nil {
 		return m, fmt.Errorf("failed to marshal a message %v: %w", m, err)
@@ -87,6 +91,7 @@ func (fs *FileStorage) send(m storage.Message) (storage.Message, error) {
 	if _, err = fmt.Fprintln(fs.dataFile, string(data)); err != nil {
 		return m, fmt.Errorf("failed to write a message to a data file:  %w", err)
 	}
+	simYield(fs, "send.afterWrite")
 	return m, err
 }
 
@@ -109,6 +114,7 @@ func (fs *FileStorage) GetMessages(offset uint64) ([]storage.Message, error) {
 		row  []byte
 		data storage.Message
 	)
+	simYield(fs, "get.beforeRead")
 	if _, err = fs.dataFile.Seek(0, 0); err != nil {
 		return nil, fmt.Errorf("failed to seek a offset to the start of a data file:  %w", err)
 	}
